@@ -2,6 +2,7 @@
 use crate::prelude::*;
 
 //third-party shortcuts
+use bevy::ecs::entity::Entities;
 use bevy::prelude::*;
 use bevy::utils::{HashMap, HashSet};
 use crossbeam::channel::{Receiver, Sender};
@@ -453,8 +454,12 @@ impl ReactCache
         In((target, event)) : In<(Entity, E)>,
         mut commands        : Commands,
         cache               : Res<ReactCache>,
+        entities            : &Entities,
         entity_reactors     : Query<&EntityReactors>,
     ){
+        // entity events targeting despawned entities are dropped
+        if !entities.contains(target) { return; }
+
         // get reactors
         let entity_reactors = entity_reactors.get(target);
         let handlers = cache.any_entity_event_reactors.get(&TypeId::of::<E>());
